@@ -52,6 +52,10 @@ Names == Files \cup {ALWAYS}
 \* state.rs:388-404, 1284-1418: names are cleaned, resolved and stored relative to the project base
 Norm(x) == IF x \in DOMAIN Alias THEN Alias[x] ELSE x
 NormSeq(q) == [i \in 1..Len(q) |-> Norm(q[i])]
+\* a command started in the directory cwd of the project (env.rs: the project base is found by walking upwards; names on
+\* the command line are relative to the working directory): the key of such a spelling is "<cwd>|<spelling>"
+NormAt(cwd, x) == IF cwd # "" /\ (cwd \o "|" \o x) \in DOMAIN Alias THEN Alias[cwd \o "|" \o x] ELSE Norm(x)
+NormSeqAt(cwd, q) == [i \in 1..Len(q) |-> NormAt(cwd, q[i])]
 
 VARIABLES
     fs,      \* [Files -> [ex, val, ver, own]]
@@ -80,7 +84,7 @@ vars == <<fs, tmp, clock, w, runid, locks, procs, cmd, hist, ran, ncmds, pool, g
 NoPid == <<>>
 Top   == <<"c">>
 
-Idle == [kind |-> "idle", targs |-> <<>>, keep |-> FALSE, j |-> 1]
+Idle == [kind |-> "idle", targs |-> <<>>, keep |-> FALSE, j |-> 1, cwd |-> ""]
 
 FileRec(n, k, c, own) == [ex |-> TRUE, val |-> [n |-> n, k |-> k, v |-> c, d |-> <<>>],
                           ver |-> c, own |-> own, dir |-> FALSE, lnk |-> ""]
@@ -260,7 +264,7 @@ StartBuild(c) ==
     /\ procs' = Spawn(procs, Top,
                       [ProcDefaults EXCEPT !.kind = "redo", !.pc = "pass1", !.rid = runid + 1,
                                            !.forced = (c.kind = "redo"), !.keep = c.keep,
-                                           !.targs = NormSeq(c.targs), !.tok = 1])
+                                           !.targs = NormSeqAt(c.cwd, c.targs), !.tok = 1])
     \* only `redo -jN` creates more than one token; redo-ifchange at top level runs -j1
     /\ pool' = IF c.kind = "redo" THEN c.j - 1 ELSE 0
     /\ gh' = [gh EXCEPT !.fails = {}, !.codes = {}, !.crashNow = FALSE, !.inner = {}]
@@ -271,7 +275,7 @@ EndBuild ==
     /\ DOMAIN procs = {Top} /\ procs[Top].pc = "done"
     /\ procs' = << >>
     /\ cmd' = Idle
-    /\ hist' = Append(hist, [a |-> "cmd", kind |-> cmd.kind, targs |-> cmd.targs, keep |-> cmd.keep, j |-> cmd.j,
+    /\ hist' = Append(hist, [a |-> "cmd", kind |-> cmd.kind, targs |-> cmd.targs, keep |-> cmd.keep, j |-> cmd.j, cwd |-> cmd.cwd,
                              rc |-> procs[Top].rc, ran |-> ran, codes |-> gh.codes, killed |-> gh.crashNow,
                              snap |-> Snapshot])
     /\ ran' = << >>
@@ -297,7 +301,7 @@ Query(c) ==
     /\ CanAct /\ ncmds < MaxCmds /\ c \in Cmds /\ c.kind \in {"ood", "targets", "sources"}
     /\ runid' = runid + 1
     /\ ncmds' = ncmds + 1
-    /\ hist' = Append(hist, [a |-> "query", kind |-> c.kind, out |-> QueryOut(c.kind, runid + 1),
+    /\ hist' = Append(hist, [a |-> "query", kind |-> c.kind, cwd |-> c.cwd, out |-> QueryOut(c.kind, runid + 1),
                              snap |-> Snapshot])
     /\ UNCHANGED <<fs, tmp, clock, w, locks, procs, cmd, ran, pool, gh>>
 
@@ -758,7 +762,7 @@ CrashTree ==
     /\ pool' = 0
     /\ gh' = [gh EXCEPT !.crashes = @ + 1, !.crashNow = TRUE]
     /\ hist' = Append(hist, [a |-> "crash", kind |-> cmd.kind, targs |-> cmd.targs, keep |-> cmd.keep,
-                             j |-> cmd.j, who |-> "tree", snap |-> Snapshot])
+                             j |-> cmd.j, cwd |-> cmd.cwd, who |-> "tree", snap |-> Snapshot])
     /\ UNCHANGED <<fs, tmp, clock, w, runid, ncmds>>
 
 \* an abandoned script that will still run redo-stamp reaches the stamp window later
